@@ -421,8 +421,9 @@ func (in *Interp) exec(t *rapid.T, inv *Invocation, body []*Stmt, where string, 
 							}
 							inv.stepStart = len(inv.Draws)
 						}
-						if inv.unwinding == "skip" {
-							// a skipped action must leave no trace in the state (its draws are removed from the bitstream)
+						if !completed && inv.unwinding != "fatal" {
+							// a skipped action (own Skip, or a generator giving up) must leave no trace in the state
+							// (its draws are removed from the bitstream)
 							copy(in.env.vals, savedVals)
 							copy(in.env.set, savedSet)
 						}
